@@ -241,3 +241,18 @@ func Repeat(n int) int { return n }
 // NondetMapOrderAt(k): inside the executor only the k-th map iteration from now on takes a
 // forked permutation (bounding the product over many loops); natively a no-op.
 func NondetMapOrderAt(k int) {}
+
+// Concurrently runs f in n goroutines natively (the replay of a C19 violation is
+// built with -race); inside the executor f runs once under the write monitor.
+func Concurrently(n int, f func()) {
+	done := make(chan struct{}, n)
+	for i := 0; i < n; i++ {
+		go func() {
+			defer func() { done <- struct{}{} }()
+			f()
+		}()
+	}
+	for i := 0; i < n; i++ {
+		<-done
+	}
+}
